@@ -300,60 +300,461 @@ func m1RetLeafTerms(fn *ssa.Function) []string {
 	return out
 }
 
+// Three-way outcomes of comparing the node label s with the wanted label w, as a bit set.
+const (
+	c51LT  = 1 // s < w
+	c51EQ  = 2 // s == w
+	c51GT  = 4 // s > w
+	c51Any = c51LT | c51EQ | c51GT
+)
+
+func c51OutcomeText(o int) string {
+	if o == 0 {
+		return "none"
+	}
+	var ss []string
+	if o&c51LT != 0 {
+		ss = append(ss, "node<wanted")
+	}
+	if o&c51EQ != 0 {
+		ss = append(ss, "node==wanted")
+	}
+	if o&c51GT != 0 {
+		ss = append(ss, "node>wanted")
+	}
+	return strings.Join(ss, "|")
+}
+
+// c51Outcomes returns the outcomes of comparing s with w under which cond evaluates to val
+// (c51Any when cond is not a comparison of the two). Recognised: s OP w, w OP s for the six
+// comparison operators, and strings.Compare / cmp.Compare of the two against an integer constant.
+func c51Outcomes(cond ssa.Value, val bool, s, w ssa.Value) int {
+	for {
+		if u, ok := cond.(*ssa.UnOp); ok && u.Op == token.NOT {
+			cond, val = u.X, !val
+			continue
+		}
+		break
+	}
+	bo, ok := cond.(*ssa.BinOp)
+	if !ok {
+		return c51Any
+	}
+	rel := func(op token.Token, a, b int64) (bool, bool) {
+		switch op {
+		case token.LSS:
+			return a < b, true
+		case token.LEQ:
+			return a <= b, true
+		case token.GTR:
+			return a > b, true
+		case token.GEQ:
+			return a >= b, true
+		case token.EQL:
+			return a == b, true
+		case token.NEQ:
+			return a != b, true
+		}
+		return false, false
+	}
+	// sign(s ? w) for each outcome; evaluate `left OP right` where the pair is (sign*orient, k)
+	set := func(orient, k int64, constLeft bool) int {
+		out := 0
+		for _, o := range []struct {
+			bit  int
+			sign int64
+		}{{c51LT, -1}, {c51EQ, 0}, {c51GT, 1}} {
+			a, b := o.sign*orient, k
+			if constLeft {
+				a, b = b, a
+			}
+			r, known := rel(bo.Op, a, b)
+			if !known {
+				return c51Any
+			}
+			if r == val {
+				out |= o.bit
+			}
+		}
+		return out
+	}
+	x, y := m1Strip(bo.X), m1Strip(bo.Y)
+	switch {
+	case x == s && y == w:
+		return set(1, 0, false)
+	case x == w && y == s:
+		return set(-1, 0, false)
+	}
+	cmpOf := func(v ssa.Value) int64 {
+		call, ok := v.(*ssa.Call)
+		if !ok || len(call.Call.Args) != 2 {
+			return 0
+		}
+		n := CalleeName(&call.Call)
+		if i := strings.Index(n, "["); i > 0 {
+			n = n[:i]
+		}
+		if n != "strings.Compare" && n != "cmp.Compare" {
+			return 0
+		}
+		a, b := m1Strip(call.Call.Args[0]), m1Strip(call.Call.Args[1])
+		switch {
+		case a == s && b == w:
+			return 1
+		case a == w && b == s:
+			return -1
+		}
+		return 0
+	}
+	if o := cmpOf(x); o != 0 {
+		if kc, ok := y.(*ssa.Const); ok {
+			if k, ok := IntOf64(kc); ok {
+				return set(o, k, false)
+			}
+		}
+	}
+	if o := cmpOf(y); o != 0 {
+		if kc, ok := x.(*ssa.Const); ok {
+			if k, ok := IntOf64(kc); ok {
+				return set(o, k, true)
+			}
+		}
+	}
+	return c51Any
+}
+
+func c51LastIf(b *ssa.BasicBlock) *ssa.If {
+	if len(b.Instrs) == 0 {
+		return nil
+	}
+	ifi, _ := b.Instrs[len(b.Instrs)-1].(*ssa.If)
+	return ifi
+}
+
+// c51OutcomesAt: the outcomes consistent with every branch edge that dominates block b.
+func c51OutcomesAt(b *ssa.BasicBlock, s, w ssa.Value) int {
+	out := c51Any
+	for d := b.Idom(); d != nil; d = d.Idom() {
+		ifi := c51LastIf(d)
+		if ifi == nil || len(d.Succs) != 2 || d.Succs[0] == d.Succs[1] {
+			continue
+		}
+		for k, su := range d.Succs {
+			if len(su.Preds) == 1 && su.Dominates(b) {
+				out &= c51Outcomes(ifi.Cond, k == 0, s, w)
+			}
+		}
+	}
+	return out
+}
+
+// c51OutcomesOnEdge: the outcomes consistent with leaving pred towards succ.
+func c51OutcomesOnEdge(pred, succ *ssa.BasicBlock, s, w ssa.Value) int {
+	out := c51OutcomesAt(pred, s, w)
+	if ifi := c51LastIf(pred); ifi != nil && len(pred.Succs) == 2 && pred.Succs[0] != pred.Succs[1] {
+		if pred.Succs[0] == succ {
+			out &= c51Outcomes(ifi.Cond, true, s, w)
+		} else if pred.Succs[1] == succ {
+			out &= c51Outcomes(ifi.Cond, false, s, w)
+		}
+	}
+	return out
+}
+
+// c51Leaf is one way of finishing an iteration: the values lo and hi take in the next
+// iteration and the comparison outcomes under which that happens.
+type c51Leaf struct {
+	lo, hi ssa.Value
+	out    int
+}
+
+// c51BackEdgeLeaves expands the loop-carried lo/hi into their leaves: one per back edge, and,
+// where the value arriving on a back edge is itself a merge below the header, one per incoming
+// edge of that merge (lo and hi are followed together), with the outcomes of the edges passed.
+func c51BackEdgeLeaves(loPhi, hiPhi *ssa.Phi, s, w ssa.Value) []c51Leaf {
+	header := loPhi.Block()
+	var leaves []c51Leaf
+	phiIn := func(v ssa.Value) *ssa.Phi {
+		if ph, ok := v.(*ssa.Phi); ok && ph.Block() != header {
+			return ph
+		}
+		return nil
+	}
+	var expand func(lo, hi ssa.Value, out, depth int)
+	expand = func(lo, hi ssa.Value, out, depth int) {
+		var blk *ssa.BasicBlock
+		if ph := phiIn(lo); ph != nil {
+			blk = ph.Block()
+		}
+		if ph := phiIn(hi); ph != nil && (blk == nil || blk != ph.Block() && blk.Dominates(ph.Block())) {
+			blk = ph.Block() // the later merge first
+		}
+		if blk == nil || depth > 6 || out == 0 {
+			leaves = append(leaves, c51Leaf{lo, hi, out})
+			return
+		}
+		for i, p := range blk.Preds {
+			l2, h2 := lo, hi
+			if ph := phiIn(lo); ph != nil && ph.Block() == blk && i < len(ph.Edges) {
+				l2 = ph.Edges[i]
+			}
+			if ph := phiIn(hi); ph != nil && ph.Block() == blk && i < len(ph.Edges) {
+				h2 = ph.Edges[i]
+			}
+			expand(l2, h2, out&c51OutcomesOnEdge(p, blk, s, w), depth+1)
+		}
+	}
+	for i, p := range header.Preds {
+		if !header.Dominates(p) || i >= len(loPhi.Edges) || i >= len(hiPhi.Edges) {
+			continue // the edge entering the loop
+		}
+		expand(loPhi.Edges[i], hiPhi.Edges[i], c51OutcomesOnEdge(p, header, s, w), 0)
+	}
+	return leaves
+}
+
+// c51find: find is a binary search over [lo,hi). The decision is made over the three-way
+// outcome of comparing the node label with the wanted label, so the order and nesting of the
+// tests (if / else-if chain in either order, tagless switch, strings.Compare) do not matter:
+//   - the loop body runs only under lo < hi, notFound is returned only under hi <= lo;
+//   - mid = lo + (hi-lo)/2;
+//   - every way of continuing the loop happens under exactly one outcome: node < wanted with
+//     lo = mid+1 and hi unchanged, or node > wanted with hi = mid and lo unchanged (so on
+//     equality the loop never continues);
+//   - mid is returned only under node == wanted.
 func c51find(c *Ctx) {
 	const name = "publicsuffix.find"
+	const rule = "binary-search"
 	fn := c.MustFn(name)
 	if fn == nil {
+		return
+	}
+	if len(fn.Params) != 3 {
+		c.Undecided(rule, name, "find no longer takes (label, lo, hi)")
 		return
 	}
 	nl := Calls("publicsuffix.nodeLabel").F(c.P, fn)
 	if !c.Count(name, Calls("publicsuffix.nodeLabel"), 1, 1) {
 		return
 	}
-	mid := BaselineArgs(&nl[0].(*ssa.Call).Call)[0]
-	lab := Term(nl[0].(ssa.Value))
-	c.Guard(name, Returns().Where("returns mid", func(in ssa.Instruction) bool { return in.(*ssa.Return).Results[0] == mid }), "$0 == "+lab)
-	c.Count(name, Returns().Where("returns mid", func(in ssa.Instruction) bool { return in.(*ssa.Return).Results[0] == mid }), 1, 1)
-	c.Count(name, RetTerm(0, fmt.Sprint(uint32(1<<32-1))), 1, 1)
+	c.Count(name, RetTerm(0, fmt.Sprint(uint32(1<<32-1))), 1, -1)
 	// loop-carried lo / hi: identified by the parameters they start from
 	var loPhi, hiPhi *ssa.Phi
 	for _, b := range fn.Blocks {
 		for _, in := range b.Instrs {
 			if ph, ok := in.(*ssa.Phi); ok && m1IsLoopHeader(b) {
 				for _, e := range ph.Edges {
-					if len(fn.Params) == 3 && e == fn.Params[1] {
+					if e == fn.Params[1] {
 						loPhi = ph
 					}
-					if len(fn.Params) == 3 && e == fn.Params[2] {
+					if e == fn.Params[2] {
 						hiPhi = ph
 					}
 				}
 			}
 		}
 	}
-	if loPhi == nil || hiPhi == nil {
-		c.Undecided("binary-search", name, "loop-carried lo/hi not found")
+	if loPhi == nil || hiPhi == nil || loPhi.Block() != hiPhi.Block() {
+		if c51findLibrary(c, fn, nl[0].(*ssa.Call)) {
+			return
+		}
+		c.Undecided(rule, name, "loop-carried lo/hi not found")
 		return
 	}
-	notFoundGuard := false
+	s := ssa.Value(nl[0].(*ssa.Call))
+	w := ssa.Value(fn.Params[0])
+	mid := BaselineArgs(&nl[0].(*ssa.Call).Call)[0]
+	lo, hi := Term(loPhi), Term(hiPhi)
+
+	// lo < hi inside, hi <= lo at notFound
+	c.Check(c.P.HoldsAt(nl[0], lo+" < "+hi, false), rule, name+": the range is searched only while lo < hi", nl[0].Pos(), "", "the node label is read without lo < hi being established; facts here: {"+FactsText(nl[0])+"}")
+	notFoundGuard := true
 	for _, r := range RetTerm(0, fmt.Sprint(uint32(1<<32-1))).F(c.P, fn) {
-		for _, f := range FactsAtInstr(r) {
-			// hi - lo <= 0
-			if f.Atom.Kind == LE && f.Atom.L.K == 0 && len(f.Atom.L.Coef) == 2 && f.Atom.L.Coef[Term(hiPhi)] == 1 && f.Atom.L.Coef[Term(loPhi)] == -1 {
-				notFoundGuard = true
+		if !c.P.HoldsAt(r, hi+" <= "+lo, false) {
+			notFoundGuard = false
+		}
+	}
+	c.Check(notFoundGuard, rule, name+": notFound only when lo >= hi", fn.Pos(), "", "a notFound return is not under hi <= lo")
+
+	// mid
+	mt := Term(m1Strip(mid))
+	midOK := false
+	for _, f := range []string{"(%[1]s+((%[2]s-%[1]s)/2))", "(((%[2]s-%[1]s)/2)+%[1]s)", "(%[1]s+((%[2]s-%[1]s)>>1))", "(((%[2]s-%[1]s)>>1)+%[1]s)", "((%[1]s+%[2]s)/2)", "((%[2]s+%[1]s)/2)", "((%[1]s+%[2]s)>>1)", "((%[2]s+%[1]s)>>1)"} {
+		if mt == fmt.Sprintf(f, lo, hi) {
+			midOK = true
+		}
+	}
+	c.Check(midOK, rule, name+": mid lies in [lo,hi)", fn.Pos(), mt, "mid is "+mt)
+
+	// mid is returned only on equality
+	retMid := Returns().Where("returns mid", func(in ssa.Instruction) bool {
+		r := in.(*ssa.Return).Results[0]
+		return r == mid || m1Strip(r) == m1Strip(mid)
+	})
+	if rs := retMid.F(c.P, fn); len(rs) == 0 {
+		c.Fail(rule, name+": mid is returned under node label == wanted label", fn.Pos(), "no return of mid")
+	} else {
+		bad := ""
+		for _, r := range rs {
+			if o := c51OutcomesAt(r.Block(), s, w); o != c51EQ {
+				bad = fmt.Sprintf("mid is returned at %s under the outcomes {%s}", c.P.Pos(r.Pos()), c51OutcomeText(o))
+			}
+		}
+		c.Check(bad == "", rule, name+": mid is returned under node label == wanted label", rs[0].Pos(), fmt.Sprintf("%d return(s)", len(rs)), bad)
+	}
+
+	// the ways of continuing the loop
+	isMidPlus1 := func(v ssa.Value) bool {
+		t := Term(m1Strip(v))
+		return t == "("+Term(mid)+"+1)" || t == "(1+"+Term(mid)+")"
+	}
+	isMid := func(v ssa.Value) bool { return v == mid || m1Strip(v) == m1Strip(mid) || Term(m1Strip(v)) == mt }
+	nLT, nGT := 0, 0
+	loMoves, hiKept, hiMoves, loKept, decided := "", "", "", "", ""
+	for _, l := range c51BackEdgeLeaves(loPhi, hiPhi, s, w) {
+		switch l.out {
+		case 0:
+			// contradictory conditions: not an execution
+		case c51LT:
+			nLT++
+			if !isMidPlus1(l.lo) {
+				loMoves = "under node label < wanted label lo becomes " + m1TermOrNil(l.lo)
+			}
+			if l.hi != ssa.Value(hiPhi) {
+				hiKept = "under node label < wanted label hi becomes " + m1TermOrNil(l.hi)
+			}
+		case c51GT:
+			nGT++
+			if !isMid(l.hi) {
+				hiMoves = "under node label > wanted label hi becomes " + m1TermOrNil(l.hi)
+			}
+			if l.lo != ssa.Value(loPhi) {
+				loKept = "under node label > wanted label lo becomes " + m1TermOrNil(l.lo)
+			}
+		default:
+			decided = fmt.Sprintf("the loop continues with lo=%s, hi=%s under the outcomes {%s}", m1TermOrNil(l.lo), m1TermOrNil(l.hi), c51OutcomeText(l.out))
+		}
+	}
+	if nLT == 0 && loMoves == "" {
+		loMoves = "no way of continuing the loop is taken exactly when node label < wanted label"
+	}
+	if nGT == 0 && hiMoves == "" {
+		hiMoves = "no way of continuing the loop is taken exactly when node label > wanted label"
+	}
+	c.Check(decided == "", rule, name+": the loop continues only under node label < wanted label or node label > wanted label (never on equality)", fn.Pos(), "", decided)
+	c.Check(loMoves == "", rule, name+": node label < wanted label moves lo to mid+1", fn.Pos(), "", loMoves)
+	c.Check(hiMoves == "", rule, name+": node label > wanted label moves hi to mid", fn.Pos(), "", hiMoves)
+	c.Check(hiKept == "", rule, name+": hi unchanged when lo moves", fn.Pos(), "", hiKept)
+	c.Check(loKept == "", rule, name+": lo unchanged when hi moves", fn.Pos(), "", loKept)
+}
+
+// c51findLibrary decides find written with the library search: i := lo + sort.Search(hi-lo, func(i) { return nodeLabel(lo+i) >= label }).
+// sort.Search returns hi-lo when no element satisfies the predicate, so i must be tested against hi before
+// node i is looked at; i is returned only under i < hi and nodeLabel(i) == label. Reports whether the form was recognised.
+func c51findLibrary(c *Ctx, fn *ssa.Function, nl *ssa.Call) bool {
+	const name = "publicsuffix.find"
+	const rule = "binary-search"
+	var search *ssa.Call
+	n := 0
+	ForEachInstr(fn, func(in ssa.Instruction) {
+		if call, ok := in.(*ssa.Call); ok && CalleeName(&call.Call) == "sort.Search" {
+			search = call
+			n++
+		}
+	})
+	if n != 1 || len(search.Call.Args) != 2 {
+		return false
+	}
+	mc, ok := search.Call.Args[1].(*ssa.MakeClosure)
+	if !ok {
+		return false
+	}
+	pred, ok := mc.Fn.(*ssa.Function)
+	if !ok {
+		return false
+	}
+	// which parameter of find a captured variable holds (never reassigned)
+	paramOf := func(v ssa.Value) int {
+		for i, p := range fn.Params {
+			if v == ssa.Value(p) {
+				return i
+			}
+		}
+		al, ok := v.(*ssa.Alloc)
+		if !ok {
+			return -1
+		}
+		idx, stores := -1, 0
+		ForEachInstr(fn, func(in ssa.Instruction) {
+			if st, ok := in.(*ssa.Store); ok && st.Addr == ssa.Value(al) {
+				stores++
+				for i, p := range fn.Params {
+					if st.Val == ssa.Value(p) {
+						idx = i
+					}
+				}
+			}
+		})
+		if stores != 1 {
+			return -1
+		}
+		return idx
+	}
+	fv := map[int]string{}
+	for i, b := range mc.Bindings {
+		if i < len(pred.FreeVars) {
+			if k := paramOf(b); k >= 0 {
+				fv[k] = "^" + pred.FreeVars[i].Name()
 			}
 		}
 	}
-	c.Check(notFoundGuard, "binary-search", name+": notFound only when lo >= hi", fn.Pos(), "", "the notFound return is not under hi <= lo")
-	less := "(" + lab + "<$0)"
-	e, ok := c.P.PhiEdgeUnder(loPhi, less)
-	c.Check(ok && Term(e) == "("+Term(mid)+"+1)", "binary-search", name+": node label < wanted label moves lo to mid+1", fn.Pos(), "", fmt.Sprintf("under %s lo becomes %v", less, m1TermOrNil(e)))
-	e, ok = c.P.PhiEdgeUnder(hiPhi, "$0 != "+lab)
-	c.Check(ok && e == mid, "binary-search", name+": node label > wanted label moves hi to mid", fn.Pos(), "", fmt.Sprintf("under $0 != label (and not <) hi becomes %v", m1TermOrNil(e)))
-	e, ok = c.P.PhiEdgeUnder(hiPhi, less)
-	c.Check(ok && e == ssa.Value(hiPhi), "binary-search", name+": hi unchanged when lo moves", fn.Pos(), "", "hi is modified on the lo branch")
-	mt := Term(mid)
-	c.Check(mt == "("+Term(loPhi)+"+(("+Term(hiPhi)+"-"+Term(loPhi)+")/2))" || mt == "(("+Term(loPhi)+"+"+Term(hiPhi)+")/2)", "binary-search", name+": mid lies in [lo,hi)", fn.Pos(), mt, "mid is "+mt)
+	c.Check(Term(search.Call.Args[0]) == "($2-$1)", rule, name+": sort.Search over hi-lo elements", search.Pos(), "", "sort.Search is given "+Term(search.Call.Args[0])+" elements")
+	predOK, predTerm := false, ""
+	ForEachInstr(pred, func(in ssa.Instruction) {
+		if r, ok := in.(*ssa.Return); ok && len(r.Results) == 1 {
+			predTerm = Term(r.Results[0])
+		}
+	})
+	if fv[0] != "" && fv[1] != "" {
+		for _, f := range []string{"(nodeLabel((%[1]s+$0))>=%[2]s)", "(nodeLabel(($0+%[1]s))>=%[2]s)", "(%[2]s<=nodeLabel((%[1]s+$0)))", "(%[2]s<=nodeLabel(($0+%[1]s)))"} {
+			if predTerm == fmt.Sprintf(f, fv[1], fv[0]) {
+				predOK = true
+			}
+		}
+	}
+	nRet := 0
+	ForEachInstr(pred, func(in ssa.Instruction) {
+		if _, ok := in.(*ssa.Return); ok {
+			nRet++
+		}
+	})
+	c.Check(predOK && nRet == 1, rule, name+": the search predicate is nodeLabel(lo+i) >= label", pred.Pos(), "", "the predicate returns "+predTerm)
+	idx := "($1+" + Term(search) + ")"
+	idxLin := "$1+" + Term(search) // the same value as a sum, for comparisons (linear normal form)
+	notFound := fmt.Sprint(uint32(1<<32 - 1))
+	bad, nIdx := "", 0
+	for _, r := range Returns().F(c.P, fn) {
+		t := Term(m1Strip(r.(*ssa.Return).Results[0]))
+		switch {
+		case t == notFound:
+		case t == idx:
+			nIdx++
+			if !c.P.HoldsAt(r, idxLin+" < $2", false) {
+				bad = "the index found by sort.Search is returned without having been tested against hi (sort.Search returns hi-lo when every label is smaller: node hi is outside the range, possibly outside the table); facts here: {" + FactsText(r) + "}"
+			} else if !c.P.HoldsAt(r, "$0 == nodeLabel("+idx+")", true) {
+				bad = "the index found by sort.Search is returned without its label having been compared with the wanted label; facts here: {" + FactsText(r) + "}"
+			}
+		default:
+			bad = "find returns " + t
+		}
+	}
+	if nIdx == 0 && bad == "" {
+		bad = "the index found by sort.Search is never returned"
+	}
+	c.Check(bad == "", rule, name+": the found index is returned only under index < hi and node label == wanted label", fn.Pos(), "", bad)
+	// the label of node index is read only under index < hi
+	c.Check(Term(BaselineArgs(&nl.Call)[0]) != idx || c.P.HoldsAt(nl, idxLin+" < $2", false), rule, name+": node index is read only under index < hi", nl.Pos(), "", "nodeLabel("+idx+") is evaluated without index < hi (index == hi when every label in the range is smaller)")
+	return true
 }
 
 func m1TermOrNil(v ssa.Value) string {
